@@ -262,6 +262,13 @@ func exec09(c *c09Case) outcome {
 				}
 			}
 		}
+		if conf != nil && conf.Initializers != nil {
+			// the caller's map is first seen by a call that is rejected (Inputs = 0): a rejected call has no effect, so the
+			// call under test - which re-uses the map, as a caller fixing its mistake would - has its specified outcome
+			if l0, e0 := layers.NewFC(&layers.FCConfig{Inputs: 0, Outputs: 2, Initializers: conf.Initializers}); e0 == nil || l0 != nil {
+				return outcome{note: "NewFC accepted Inputs = 0"}
+			}
+		}
 		l, err := layers.NewFC(conf)
 		if l == nil {
 			return outcome{err: err}
